@@ -8,6 +8,7 @@
 -/
 import Edn.Proofs.Fuel
 import Edn.Proofs.Number
+import Edn.Proofs.AllocBound
 
 namespace Edn.Properties.C02
 open Edn.Model Edn.Proofs
@@ -51,5 +52,74 @@ theorem limits_consistent :
     Edn.Generated.Tables.maxNestingDepth ≤ Edn.Generated.Tables.maxRecursionDepth := by decide
 
 example : ratioGcd (-9223372036854775808) 2 = 2 := by decide +kernel
+
+/-! ## Allocation requests of a fault-free read (task E17)
+
+Time cannot be exhibited by the model, but the number of logical allocation requests can: the
+allocation-aware reader `readA` (Edn.Model.ReaderA) counts them in `ASt.reqs`, and the correspondence
+stream `H` of C16 / C15 compares exactly that number (`reqs=`) between model and C code on every
+corpus document. -/
+
+/-- **Linearly many allocation requests.**  When no request fails, no tag registry is installed and
+    every string literal of the input has escapes that decode (`stringsDecode`: a decidable test on
+    the bytes — at every `"` from which the string scanner finds a closing quote and reports
+    escapes, `decodeString` succeeds), reading makes at most `5 * length + length / 64 + 9` logical
+    allocation requests: in every configuration, for every growth rule of the collection builders
+    and every order in which `qsort` hands the elements to the comparator.
+
+    Constants: 2 for `edn_arena_create`; 4 per byte consumed (value node, builder growth, key
+    rewriting, map arrays, metadata map and entry, scratch array of the duplicate check, text-block
+    line records — see Edn.Proofs.AllocBound); `length + 1` for the lazily materialised payloads the
+    duplicate check / metadata merge ask for, each at most once (`ASt.bufs`); on the error path
+    4 + `length / 64` for the temporary arena and the line index with its doubling offsets array.
+
+    What this says about time: every request is one `edn_arena_alloc` / `malloc` / `calloc` /
+    `realloc` call, so the allocator is entered linearly often and (block sizes being bounded by
+    the input length) the memory obtained is polynomially bounded.  What it does NOT say: the work
+    done between two requests is not counted — the pairwise duplicate check of small collections,
+    `edn_value_equal` on nested collections and the metadata merge compare values without
+    requesting anything, and that part of the running time (quadratic in the worst case) is
+    covered by the measured half of C02 only.
+
+    The hypothesis on the literals cannot be dropped: a literal whose escapes do not decode is
+    accepted by the reader (decoding is lazy) and its decoded text is requested again at every look
+    of `edn_value_equal` / `edn_value_hash`; `Edn.Proofs.AllocBound.superDoc` (nested small sets of
+    such literals) makes 1537 requests with 269 bytes and 36789 with 1331 bytes — in the model and,
+    checked with the harness command `H`, in the C code. -/
+theorem fault_free_read_of_decodable_strings_makes_linearly_many_requests
+    (cfg : Cfg) (opts : Opts) (orc : Nat → Bool) (input : Bytes)
+    (grow : Nat → Nat) (handlerReq : String → Bool) (sortTouch : Nat → List Nat)
+    (horc : ∀ n, orc n = false) (hreg : opts.registry = none)
+    (hstr : Edn.Proofs.AllocBound.stringsDecode cfg input = true) :
+    (readA cfg opts orc input grow handlerReq sortTouch).ast.reqs ≤ 5 * input.length + input.length / 64 + 9 :=
+  Edn.Proofs.AllocBound.readA_reqs_linear cfg opts orc input grow handlerReq sortTouch horc hreg hstr
+
+/-- the oracle of the task statement, default builders and `qsort` -/
+theorem fault_free_read_makes_linearly_many_requests (cfg : Cfg) (opts : Opts) (input : Bytes)
+    (hreg : opts.registry = none) (hstr : Edn.Proofs.AllocBound.stringsDecode cfg input = true) :
+    (readA cfg opts (fun _ => false) input).ast.reqs ≤ 5 * input.length + input.length / 64 + 9 :=
+  Edn.Proofs.AllocBound.readA_reqs_linear' cfg opts input hreg hstr
+
+/-- a document without any backslash (no escape sequence, no character literal) needs no hypothesis
+    on its literals -/
+theorem fault_free_read_without_backslash_makes_linearly_many_requests (cfg : Cfg) (opts : Opts) (input : Bytes)
+    (hreg : opts.registry = none) (hbs : ∀ c ∈ input, c ≠ 0x5C) :
+    (readA cfg opts (fun _ => false) input).ast.reqs ≤ 5 * input.length + input.length / 64 + 9 :=
+  Edn.Proofs.AllocBound.readA_reqs_linear_noBackslash cfg opts input hreg hbs
+
+/-- inputs without a backslash satisfy the hypothesis trivially … -/
+example : Edn.Proofs.AllocBound.stringsDecode Cfg.core "{:a [1 2.5 \"x\"] :b #{:c nil}}".toUTF8.toList = true := by
+  decide +kernel
+/-- … strings with escapes inside sets and maps, big numbers, metadata do, too:
+    `^{"k\t" 1} #{"a\n" "b\u0041" 1_0N [#inst "x"]}` in the configuration with both flags -/
+example : Edn.Proofs.AllocBound.stringsDecode ⟨true, true⟩
+    "^{\"k\\t\" 1} #{\"a\\n\" \"b\\u0041\" 1_0N [#inst \"x\"]}".toUTF8.toList = true := by decide +kernel
+example : ((readA ⟨true, true⟩ {} (fun _ => false)
+    "^{\"k\\t\" 1} #{\"a\\n\" \"b\\u0041\" 1_0N [#inst \"x\"]}".toUTF8.toList).ast.reqs == 20) = true := by
+  decide +kernel
+/-- the counterexample to the bound without the hypothesis: 269 bytes, 1537 requests -/
+example : ((readA Cfg.core {} (fun _ => false) (Edn.Proofs.AllocBound.superDoc 7)).ast.reqs == 1537) = true
+    ∧ ((Edn.Proofs.AllocBound.superDoc 7).length == 269) = true ∧ 5 * 269 + 269 / 64 + 9 < 1537 := by
+  decide +kernel
 
 end Edn.Properties.C02
